@@ -6,7 +6,9 @@ CFG = {
     "stateful": True,
     "trivial_prefix": ("-", "bad-op"),
     "design_ref": "DESIGN.md §5 C17; notes/C17.md",
-    "technique": "Lean 4 refinement proof (simulation with abs s = (text, cursor), invariant cursor <= length) of executable models of "
+    "technique": "Round 4: the editing functions of both widgets are translated statement by statement by the extractor into a small statement language (Gen/EditorLang.lean), "
+                 "run by an interpreter (Model/EdLang.lean) in the driver, and proved equal to the hand-written models function by function (*_body_eq_model); on top of that: "
+                 "Lean 4 refinement proof (simulation with abs s = (text, cursor), invariant cursor <= length) of executable models of "
                  "vxfw/textfield.TextField and widgets/textinput.Model against the ideal editor Spec.Editor - for graphemes that never merge "
                  "(apply) and for texts of code points under any segmentation meeting three laws (applyC = grapheme editor + re-segmentation); "
                  "differential correspondence on the exported API with Spec.Editor as oracle on the real widgets",
@@ -20,7 +22,8 @@ CFG = {
             "every cursor position x 18 inserts typed one code point at a time and pasted (InsertStringAtCursor, one key event, paste bracket), "
             "then letter, BackSpace, Left, Delete, Draw; deletions that bring two parts of a grapheme together followed by cursor probes; random sequences over all code points. "
             "Round 3, the scrolled case of textinput.Draw: 6 texts (narrow, wide, mixed) x every window width 1..12 (thorough ..16) x 4 prompts (width 0, 1, 2 as one wide grapheme, 2 as two narrow) x the cursor "
-            "walking from the end to the beginning and back with a Draw after every step, Home/End, a one-column-wider window, every fifth case in password mode (288 cases; row and cursor column compared). Distinct by the whole sequence.",
+            "walking from the end to the beginning and back with a Draw after every step, Home/End, a one-column-wider window, every fifth case in password mode (288 cases; row and cursor column compared). Round 4: TextField observations carry the cursor index and the cached count (hook VerifC17State); op seg <text> = the three segmentation laws on the real uniseg and the driver's clUax "
+            "for every text over the 19 code points up to length 3 (thorough 4) and 3000 (thorough 40000) random texts of length 4..14. Distinct by the whole sequence.",
     "trusted_base": [
         "Key.Matches / Key.String (C09's subject) are evaluated by the real code in the harness; the model receives the 8 binding verdicts "
         "of HandleEvent in source order, resp. the msg.String() text",
@@ -30,11 +33,15 @@ CFG = {
         "widget's value on every op, widths of clusters come from vaxis.Characters per op; the driver checks the three laws on every text it meets",
         "kinds tf/ti: Value is modelled as the list of its clusters; that alphabet never merges and every observed value is re-clustered "
         "with uniseg (an unknown cluster would fail the comparison)",
-        "TextField.cursor is observed through Draw's Cursor.Col (exported API only); textinput's through CursorPosition(); drawn cursor and "
+        "the interpreter's reading of the libraries (Model/EdLang.lean): uniseg.FirstGraphemeClusterInString with the state threaded through yields the clusters cl of the string it "
+        "was started on, vaxis.Characters = cl, Go slice expressions are checked against len (not cap), callbacks return (nil, nil); the extractor's translation go/ast -> EdLang "
+        "(extract/cmd/C17/lang.go) is trusted to be faithful (tied by the correspondence run: the driver's model column is the interpreter on the regenerated bodies, 0 mismatches)",
+        "TextField.cursor is observed through Draw's Cursor.Col and (round 4) directly through the read-only hook VerifC17State (cursor index and cached count n); textinput's through CursorPosition(); drawn cursor and "
         "drawn cells of textinput through the add-only read-only hooks VerifC17Cursor / VerifC17Row; Window.Fill/SetCell clipping is renderRow "
         "in the driver (one cell per SetCell, last write wins, outside the window dropped)",
     ],
-    "assumptions": ["Segmentation cl (three laws, see trusted_base) for the *_clustered theorems; cl = singletons for the others",
+    "assumptions": ["ClSane cl (the empty string has no cluster, a non-empty one has one, clusters concatenate to the text: a theorem of Segmentation) for the TextField loop theorems of Props/C17Body; cl [] = [] for ti_update_body_eq_model",
+                    "Segmentation cl (three laws, see trusted_base) for the *_clustered theorems; cl = singletons for the others",
                     "uint cursor arithmetic does not wrap (guarded subtractions only)",
                     "textinput_cursor_at_grapheme_wide: graphemes at most 2 columns wide and more than 6 columns after the prompt; textinput_cursor_scrolled: non-negative widths"],
     "level_text": "Proved for all histories from any starting content, for graphemes that never merge AND for texts whose graphemes merge under any "
@@ -53,11 +60,18 @@ CFG = {
                   "prompt then the window of the text from the final offset on, left truncator iff offset > 0, right truncator at the grapheme that reaches the edge and nothing after it, mask in "
                   "password mode) and textinput_cursor_scrolled (cursor column in closed form); textinput_cursor_at_grapheme_partial says exactly when the drawn cursor is at its grapheme, textinput_cursor_at_grapheme_wide that it always is when graphemes are at most 2 wide and more than 6 columns follow the prompt, "
                   "Witness.F517 that it is not always (narrow windows: drawn at the prompt's end) - observed on the real code, outside the property text ('while the text fits'), recorded not repaired.",
+    "level_text_round4": "Round 4 (Props/C17Body.lean): tf_reset/cursorTo/insertString/deleteRight/deleteLeft/killToEnd/checkChanged/handleEvent_body_eq_model - each TextField function as "
+                  "translated from the source on this run (Gen/EditorLang.lean) and interpreted IS the model function (value, cursor, cached count n, result command, callbacks); textfield_source_refines - for every Segmentation and every "
+                  "history the interpreted source refines the ideal editor (cursor within the text, n = count); ti_setContent/ti_resegment_body_eq_model and ti_update_body_eq_model - textinput.Update for EVERY event and state (type switch, paste bracket, "
+                  "release test, all nineteen key labels with their loops, index and slice panics, default arm, clamping, resegment) is the model's update, result for result, panic for panic; editor_bodies_fully_recognised. "
+                  "The driver's model column is the interpreter on the regenerated bodies for all four kinds, so a changed statement changes the model, breaks the theorem of that function, and is judged by the ideal-editor oracle "
+                  "(which since round 4 also judges the TextField's cursor INDEX, not only the drawn column). Segmentation laws checked on the real uniseg for every text over the 19 atoms up to length 3 (thorough 4) and thousands of random ones.",
     "level_note": "Validated by correspondence only: that Key.String()/Key.Matches produce the strings/verdicts the tables list (C09's subject); that "
                   "uniseg is a Segmentation and equals the driver's clUax (compared on every op); which offset Draw settles on when the line does NOT fit (the scroll policy: modelled in draw/scrollLoop, compared cell by cell; theorems say what is "
                   "shown for the offset it settles on and bound it by 0 <= offset <= cursor, not which offset it is). New oracle on the implementation (round 3): in the scrolled case the drawn row is the prompt followed by a window of the ideal text for some offset 0..cursor, truncators at the cut ends. Modelled, not "
-                  "verified: nothing in the editing functions; guards outside loops are tied by correspondence, not by Gen facts. Not modelled: "
+                  "verified: nothing in the editing functions; since round 4 every statement of the editing functions (guards included) is in the translated bodies the theorems speak about; the Draw functions (TextField.Draw, textinput.Draw, widthToCursor, isAlphaNumeric) are still hand models tied by the round-2 text pins and the correspondence run. Not modelled: "
                   "direct assignment to the public field TextField.Value, HideCursor, a tab typed into textinput (vaxis.Characters turns it into 8 "
                   "blanks before the editor sees it).",
     "timeout": 1500,
 }
+CFG["level_text"] += " " + CFG.pop("level_text_round4")
